@@ -170,7 +170,8 @@ EXTRA = {
     "C18": " Where the validator is used: SUBSCRIBE / UNSUBSCRIBE with mixed-validity filter lists on real servers "
            "(scan P15).",
     "C19": " Client role: the window after CONNACK equals the announced Receive Maximum (sink engines, role 1).",
-    "C20": " Client keep-alive loop with an exhausted send window and keep-alive values at the u16 boundary of the "
+    "C20": " Props/C20cli.v: the period the client's loop runs with is the Server Keep Alive of CONNACK when there is "
+           "one (also when the client asked for none), else its own. Client keep-alive loop with an exhausted send window and keep-alive values at the u16 boundary of the "
            "1.5x factor are among the real-time scenarios.",
 }
 
